@@ -401,6 +401,21 @@ func execConv(a []string) (string, string) {
 		} else {
 			valS += " ~lin=?"
 		}
+		// the three linearisations computed with correctly rounded operations only (1/x, x², x³): the float64 returned, as the
+		// exact rational it is, compared bit for bit with the model's binary64 evaluation
+		if n == 7 || n == 8 || n == 9 {
+			switch {
+			case math.IsInf(val, 1):
+				valS += " ~nl=inf"
+			case math.IsInf(val, -1):
+				valS += " ~nl=-inf"
+			case math.IsNaN(val):
+				valS += " ~nl=nan"
+			default:
+				q := new(big.Rat).SetFloat64(val)
+				valS += fmt.Sprintf(" ~nl=%s/%s", q.Num().String(), q.Denom().String())
+			}
+		}
 	case errors.Is(rerr, bmc.ErrSensorReadingUnavailable):
 		valS = "err-unavailable"
 	case errors.Is(rerr, bmc.ErrSensorScanningDisabled):
